@@ -24,6 +24,7 @@ type LoopSpec struct {
 	Invariants []Clause
 	Decreases  *Clause
 	Steps      []Clause // transition obligations: checked at every back edge, never assumed; prev(x) = value at loop head
+	Exits      []Clause // exit obligations: checked on every edge that leaves the loop (normal exit, break, return from the body)
 }
 
 type SiteSpec struct {
@@ -459,7 +460,7 @@ func (cs *ContractSet) parseContractText(file, pkgPath, text string) {
 				continue
 			}
 			cur.Ensures = append(cur.Ensures, cl)
-		case "loop", "invariant", "decreases", "step":
+		case "loop", "invariant", "decreases", "step", "exit":
 			k := lastLoop
 			w2, r2 := word, rest
 			if word == "loop" {
@@ -495,6 +496,8 @@ func (cs *ContractSet) parseContractText(file, pkgPath, text string) {
 				ls.Decreases = &c
 			case "step":
 				ls.Steps = append(ls.Steps, cl)
+			case "exit":
+				ls.Exits = append(ls.Exits, cl)
 			default:
 				fail(ln, "unknown loop clause %q", w2)
 			}
